@@ -11,22 +11,21 @@ BASE = dict(MaxLen=3, MaxT=4, Small=set(), MaxLenS=2, MaxTS=3, Ds={0, 1, 2}, Abs
 # quick: two TLC runs side by side; operators in Small use the smaller timeline bounds; for the operators in DispOps the
 # subscriber also disposes between two instants (timelines of at most DispLen elements)
 QUICK = [(["delay", "delay_abs", "timestamp", "time_interval", "delay_subscription", "delay_subscription_abs"],
-          dict(MaxT=3, Small={"delay_subscription", "delay_subscription_abs"}, Hz=6, DispOps={"delay", "delay_subscription"})),
+          dict(MaxT=3, Small={"delay_subscription", "delay_subscription_abs"}, Hz=6, DispOps={"delay"})),
          (["delay_with_mapper", "delay_with_mapper_sub"],
           dict(MaxLen=2, MaxT=3, Small={"delay_with_mapper_sub"}, MaxLenS=1, MaxTS=2, SpecTs={0, 2}, Terms={"C", "E"}, Hz=6))]
 
 THOROUGH = [(["delay", "delay_abs", "timestamp", "time_interval"], dict(MaxLen=4, MaxT=5, Ds={0, 1, 2, 3}, AbsLo=2, Hz=9)),
             (["delay_subscription", "delay_subscription_abs"], dict(MaxLen=3, MaxT=5, Ds={0, 1, 2, 3}, AbsLo=2, Hz=9)),
-            (["delay_with_mapper"], dict(MaxLen=3, MaxT=3, SpecTs={0, 1, 2}, Hz=7)),
+            (["delay_with_mapper"], dict(MaxLen=3, MaxT=3, SpecTs={0, 2}, Hz=7)),
             (["delay_with_mapper_sub"], dict(MaxLen=2, MaxT=3, SpecTs={0, 2}, Hz=7)),
             (["delay", "delay_abs", "delay_subscription", "delay_subscription_abs", "delay_with_mapper", "delay_with_mapper_sub"],
              dict(MaxLen=2, MaxT=3, Ds={0, 1, 2}, SpecTs={0, 2}, Hz=6, DispLen=2,
                   DispOps={"delay", "delay_abs", "delay_subscription", "delay_subscription_abs", "delay_with_mapper", "delay_with_mapper_sub"}))]
 
 # beyond the exhaustive bounds: sampled timelines (one resolution of the ties per sample - only tie-free samples are judged)
-SIM = (["delay", "delay_abs", "delay_subscription", "delay_subscription_abs", "delay_with_mapper", "delay_with_mapper_sub",
-        "timestamp", "time_interval"],
-       dict(MaxLen=6, MaxT=9, Ds={0, 1, 2, 3, 5}, AbsLo=3, SpecTs={0, 1, 2, 4}, Hz=16))
+SIM = (["delay", "delay_abs", "delay_subscription", "delay_subscription_abs", "timestamp", "time_interval"],
+       dict(MaxLen=5, MaxT=7, Ds={0, 1, 3, 5}, AbsLo=2, Hz=13))
 
 
 def run(tier):
